@@ -217,7 +217,7 @@ func TestC20(t *testing.T) {
 			}
 		}
 		// ---- read through gRPC ----
-		ctx, cancel := context.WithTimeout(context.Background(), 5*time.Second)
+		ctx, cancel := context.WithTimeout(context.Background(), 30*time.Second)
 		defer cancel()
 		r, err := g.Promises.ReadPromise(ctx, &pb.ReadPromiseRequest{Id: d.id})
 		if err != nil {
@@ -263,7 +263,7 @@ func TestC20(t *testing.T) {
 		}
 		kind := rapid.IntRange(0, 9).Draw(rt, "case")
 		g := srv.Grpc()
-		ctx, cancel := context.WithTimeout(context.Background(), 8*time.Second)
+		ctx, cancel := context.WithTimeout(context.Background(), 120*time.Second) // a limit for a wedged server, far from any answer time: a stalled machine must not read as a violation
 		defer cancel()
 		switch {
 		case kind <= 4: // ---- A: promise round trip ----
@@ -394,9 +394,9 @@ func TestC20(t *testing.T) {
 			if _, err := g.Promises.CreatePromise(ctx, &pb.CreatePromiseRequest{Id: id, Param: &pb.Value{Data: data}, Timeout: time.Now().UnixMilli() + 3600_000, Tags: tags}); err != nil {
 				fail("create routed promise %q: %v", id, err)
 			}
-			body, ok := l.wait(func(b string) bool { return strings.Contains(b, `"invoke"`) }, 6*time.Second)
+			body, ok := l.wait(func(b string) bool { return strings.Contains(b, `"invoke"`) }, 25*time.Second)
 			if !ok {
-				fail("no invoke message arrived at the poll listener for promise %q within 6s", id)
+				fail("no invoke message arrived at the poll listener for promise %q within 25s", id)
 			}
 			var im struct {
 				Type string `json:"type"`
@@ -427,9 +427,9 @@ func TestC20(t *testing.T) {
 			if _, err := g.Promises.ResolvePromise(ctx, &pb.ResolvePromiseRequest{Id: id, Value: &pb.Value{Data: vdata, Headers: map[string]string{"h": sid}}}); err != nil {
 				fail("resolve %q: %v", id, err)
 			}
-			nb, ok := l.wait(func(b string) bool { return strings.Contains(b, `"notify"`) }, 6*time.Second)
+			nb, ok := l.wait(func(b string) bool { return strings.Contains(b, `"notify"`) }, 25*time.Second)
 			if !ok {
-				fail("no notification arrived at the poll listener for promise %q (subscription %q) within 6s", id, sid)
+				fail("no notification arrived at the poll listener for promise %q (subscription %q) within 25s", id, sid)
 			}
 			var nm struct {
 				Promise wire `json:"promise"`
@@ -453,7 +453,7 @@ func TestC20(t *testing.T) {
 				defer b.l.close()
 				bs = append(bs, b)
 			}
-			bctx, bcancel := context.WithTimeout(context.Background(), 20*time.Second)
+			bctx, bcancel := context.WithTimeout(context.Background(), 90*time.Second)
 			defer bcancel()
 			each := func(f func(b *burstMsg) error) {
 				var wg sync.WaitGroup
@@ -474,9 +474,9 @@ func TestC20(t *testing.T) {
 				return err
 			})
 			for _, b := range bs {
-				mb, ok := b.l.wait(func(x string) bool { return strings.Contains(x, `"invoke"`) }, 6*time.Second)
+				mb, ok := b.l.wait(func(x string) bool { return strings.Contains(x, `"invoke"`) }, 25*time.Second)
 				if !ok {
-					fail("burst: no invoke message arrived at listener %s for promise %q within 6s", b.lid, b.id)
+					fail("burst: no invoke message arrived at listener %s for promise %q within 25s", b.lid, b.id)
 				}
 				var m struct {
 					Task struct {
@@ -500,9 +500,9 @@ func TestC20(t *testing.T) {
 				return err
 			})
 			for _, b := range bs {
-				nb, ok := b.l.wait(func(x string) bool { return strings.Contains(x, `"notify"`) }, 6*time.Second)
+				nb, ok := b.l.wait(func(x string) bool { return strings.Contains(x, `"notify"`) }, 25*time.Second)
 				if !ok {
-					fail("burst: no notification arrived at listener %s for promise %q within 6s", b.lid, b.id)
+					fail("burst: no notification arrived at listener %s for promise %q within 25s", b.lid, b.id)
 				}
 				var nm struct {
 					Promise wire `json:"promise"`
@@ -541,7 +541,7 @@ func TestC20(t *testing.T) {
 			}
 			// wait for a firing: a promise tagged with the schedule id whose id is <schedule id>|<timestamp>
 			var found, found2 *pb.Promise
-			deadline := time.Now().Add(5 * time.Second)
+			deadline := time.Now().Add(25 * time.Second)
 			for time.Now().Before(deadline) && (found == nil || found2 == nil) {
 				sr, err := g.Promises.SearchPromises(ctx, &pb.SearchPromisesRequest{Id: "*", Tags: map[string]string{"resonate:invocation": "true"}, Limit: 100})
 				if err == nil {
@@ -569,7 +569,7 @@ func TestC20(t *testing.T) {
 				}
 			}
 			if found == nil {
-				fail("schedule %q did not fire within 5s", sid)
+				fail("schedule %q did not fire within 25s", sid)
 			} else {
 				if !strings.HasPrefix(found.Id, sid+"|") {
 					fail("scheduled promise id %q does not embed the schedule id %q unaltered", found.Id, sid)
@@ -591,7 +591,7 @@ func TestC20(t *testing.T) {
 				}
 				var again *pb.Promise
 				var others []string
-				deadline := time.Now().Add(5 * time.Second)
+				deadline := time.Now().Add(25 * time.Second)
 				for time.Now().Before(deadline) && again == nil {
 					sr, err := g.Promises.SearchPromises(ctx, &pb.SearchPromisesRequest{Id: "*", Tags: map[string]string{"resonate:invocation": "true"}, Limit: 100})
 					if err == nil {
@@ -608,7 +608,7 @@ func TestC20(t *testing.T) {
 				}
 				_, _ = g.Schedules.DeleteSchedule(ctx, &pb.DeleteScheduleRequest{Id: sid})
 				if again == nil {
-					fail("schedule %q was deleted and created again with the id template %q: within 5 s no promise with an id of that template appeared (promises of the old template: %d)", sid, tmpl2, len(others))
+					fail("schedule %q was deleted and created again with the id template %q: within 25 s no promise with an id of that template appeared (promises of the old template: %d)", sid, tmpl2, len(others))
 				}
 				stats.Class("schedule-recreated")
 			}
